@@ -1,4 +1,6 @@
 """One function per property: check_Cxx(ctx)."""
+import sys
+sys.setrecursionlimit(20000)
 import random, re, subprocess, sys, hashlib
 from common import *
 from scenario import *
@@ -1113,12 +1115,27 @@ def check_C20(ctx):
     for count in (step - 1, step, step + 1, 2 * step + 1):
         scens.append(Scen(S("top", items=[T(f"t{i}", body=["P"] if i % 7 else ["F"]) for i in range(count)]))); labels.append(f"{count} tests in one suite")
     jobs = [(s.text(), r) for s in scens for r in REPORTERS_ALL]
+    # deeper than a per-suite file name allows: the XML reporters through their printer hooks, the others as they are
+    DEEP_REPS = ["text", "cute", "cdash", "xmlp", "libxmlp"]
+    deep_scens, deep_labels = [], []
+    for depth in ([199, 201, 301, 450, 1001] if ctx.tier == "quick" else [199, 200, 201, 299, 300, 301, 302, 399, 401, 450, 801, 999, 1000, 1001, 1500]):
+        root = S("a", items=[]); cur = root
+        for i in range(1, depth):
+            nxt = S("a", items=[]); cur.items.append(nxt); cur = nxt
+        cur.items.append(T("leaf", body=["P", "F"]))
+        deep_scens.append(Scen(root)); deep_labels.append(f"suites nested {depth} deep")
+    # two long names nested in one another (the XML reporter joins them into one path)
+    for L1, L2 in ((2040, 2060), (4090, 10), (4095, 4095), (3000, 3000)):
+        deep_scens.append(Scen(S("p" * L1, items=[S("q" * L2, items=[T("leaf", body=["P", "F"])])]))); deep_labels.append(f"suite name of {L2} characters inside one of {L1}")
     obs = bench.run_many(jobs, env=asan_env(), timeout=120)
+    djobs = [(s.text(), r) for s in deep_scens for r in DEEP_REPS]
+    obs += bench.run_many(djobs, env=asan_env(), timeout=120)
+    jobs += djobs
     k = 0
     shown = set()
-    models = run_model_scenarios([s.text() for s in scens])
-    for s, lab, m in zip(scens, labels, models):
-        for rep in REPORTERS_ALL:
+    models = run_model_scenarios([s.text() for s in scens + deep_scens])
+    for s, lab, m in zip(scens + deep_scens, labels + deep_labels, models):
+        for rep in (REPORTERS_ALL if s in scens else DEEP_REPS):
             o = obs[k]; k += 1
             crashed = o.timeout or (o.rc is not None and (o.rc < 0 or o.rc in (98, 99))) or "ERROR: AddressSanitizer" in o.stderr or "runtime error" in o.stderr
             if crashed:
